@@ -201,18 +201,13 @@ def _work(args):
 
 
 def report(ctx, row, shape, src, bad, percls):
-    """Turn the mismatches of one replayed case into violations (class = shape + call class + deviation signature)."""
+    """Turn the mismatches of one replayed case into violations (class = shape + call class)."""
     seen = set()
     for what, exp, obs in bad:
         if what in seen:
             continue
         seen.add(what)
-        sig = ''
-        if what.startswith('walk/') and what.endswith('selffail') and '/self/' in what and 'seq' in obs \
-                and obs['seq'][:-1] == exp['seq'] and obs['lv'][:-1] == exp['lv'] and obs['seq'][-1:] == [exp['x']] \
-                and obs['lv'][-1:] == [True]:
-            sig = '/extraleave'   # the only deviation is one extra, unfiltered leave of the start node
-        clause, klass = 'Gen.' + ('WalkEqSpec' if what.startswith('walk/') else 'NavEqSpec'), f'gen/{shape}/{what}{sig}'
+        clause, klass = 'Gen.' + ('WalkEqSpec' if what.startswith('walk/') else 'NavEqSpec'), f'gen/{shape}/{what}'
         if ctx.known(clause, klass) is None:
             percls[clause, klass] = percls.get((clause, klass), 0) + 1
             if percls[clause, klass] > 2:   # two replay files per case class are enough
